@@ -13,6 +13,12 @@ notes = {
  "C08-r5-mut2": "changes stack depth only (values and order unchanged): C17's clause, written against C08 by the sub-agent",
  "C16-r3-mut2": "miscompiles break/continue after a closure (C01/C13's clause); C16's check does not claim 'tests pass afterwards'",
  "C01-r6-mut2": "lost shadowing of a tuple-valued `:=` loop/switch header (C03's clause: the sub-agent flagged it as a scoping change itself)",
+ "C02-r8-mut1": "the breaks of a switch that yields only in its initialiser are turned into `return Normal()` and complete the whole thunk (C01's break clause: RW.SCOPEAGREE 'breaks of a switch without a yielding clause stay breaks'; same change as C01-r8-mut1)",
+ "C02-r8-mut2": "the yield-freeness assertion is skipped for range loops that stay native: the yields in them call the stub (C12's clause 'no yield survives as a stub': RW.FIELDCOV)",
+ "C04-r8-mut1": "the break rewriting of a yielding switch descends into native range loops (C01's break clause: the traversal callback is driven on every node kind)",
+ "C16-r8-mut2": "eta reduction accepts callees without a type-checker object: a closure over a function declared in a plain sibling file is reduced in go:generate mode (C07/C11/C13: OPT.ETA 'unresolved identifier'); C16's own check does not claim 'tests pass afterwards'",
+ "C18-r8-mut1": "the 'first iteration' flag of For belongs to the For value instead of the run: a second run of the same value runs the post statement first (re-startability of terms: SEQ.FOR second run in C01/C02/C03/C07/C08/C14; the sub-agent demonstrates it through the panic of a skipped cell)",
+ "C18-r8-mut2": "the break rewriting of a yielding switch descends into native range loops: control is misrouted and a panic after the loop never happens (C01's break clause; same change as C04-r8-mut1)",
  "C03-r7-mut2": "`k, v = range` split into two sequential assignments: evaluation order of the left-hand sides of an `=` range clause (C04's clause, RW.TMPL.RANGE.TUPLE; the sub-agent rates the fit to C03 as moderate itself)",
  "C05-r7-mut1": "generator declarations remembered by name: a same-named plain method is rewritten into an empty generator (C12 'wrong signature' / C13 'bystander' clauses; the sub-agent calls the fit to C05 weak: the delegation itself is faithful)",
  "C05-r7-mut2": "break after a delegation in a yielding switch is no longer retargeted (C01's break/continue clause: RW.SCOPEAGREE)",
